@@ -51,7 +51,14 @@ func vfC15(w *vfWorld) {
 		}
 	}
 	cidrPool := []string{"10.1.0.0/16", "10.1.2.0/24", "10.1.2.128/25", "192.0.2.64/27", "203.0.113.9", "198.18.0.0/15", "172.16.0.0/22",
-		"2001:db8::/48", "2001:db8:0:1::/64", "2001:db8::ff00/120", "fd00::1", "::ffff:10.9.0.0/112", "127.0.0.1", "0.0.0.0/32"}
+		"2001:db8::/48", "2001:db8:0:1::/64", "2001:db8::ff00/120", "fd00::1", "::ffff:10.9.0.0/112", "127.0.0.1", "0.0.0.0/32",
+		// nested networks that share their base address, in every order of configuration
+		"10.1.0.0/24", "10.1.0.0", "::ffff:10.1.0.0/120", "2001:db8::/64", "172.16.0.0/30", "198.18.0.0/24", "fd00::/8", "fd00::/64"}
+	// the order of configuration is part of the input (a set must not depend on it)
+	for i := len(cidrPool) - 1; i > 0; i-- {
+		j := t.Choice("c15.cidr-order", i+1)
+		cidrPool[i], cidrPool[j] = cidrPool[j], cidrPool[i]
+	}
 	for _, c := range cidrPool {
 		if t.Prob("c15.cidr", 220) {
 			cfg.Extra = append(cfg.Extra, "--trusted-ip="+c)
@@ -71,6 +78,7 @@ func vfC15(w *vfWorld) {
 	cl := w.NewBrowser("CLIENT", "198.51.100.20:4000")
 	segs := []string{"public", "publicx", "xpublic", "status", "health", "hooks", "deploy", "Deploy", "private", "privatex", "api", "v1", "assets", "site.css", "site.js", "site.cssx", "legacy-open", "open.txt", "openxtxt", "la", "lb", "lc", "upload", "tmp", "x"}
 	queries := []string{"", "", "?x=1", "?next=/public", "?/public", "?a=/status", "?p=^/health$", "?r=/private", "?u=/assets/a.css", "?", "?x=/legacy-open", "?o=open.txt", "?a=b&c=/hooks/deploy", "?q=%2Fpublic%2F", "?x=1#/public"}
+	frags := []string{"#/public", "#/status", "#x.css", "#/health", "#/assets/a.js", "#open.txt", "#/tmp", "#", "#/private", "#/la"}
 	methods := []string{"GET", "GET", "POST", "HEAD", "OPTIONS", "PUT", "DELETE", "get", "Post", "PATCH", "put"}
 	served := func(r *vfResp, path string) bool { return len(r.UpHits) > 0 || (path == pp+"/auth" && r.Status == 202) }
 
@@ -98,8 +106,12 @@ func vfC15(w *vfWorld) {
 			// documented: in reverse-proxy mode the effective URI is X-Forwarded-Uri
 			fp := "/" + segs[t.Choice("c15.seg", len(segs))]
 			fq := queries[t.Choice("c15.query", len(queries))]
-			if i := strings.Index(fq, "#"); i >= 0 {
-				fq = fq[:i]
+			// a forwarded URI may carry a fragment (before or after the query): it never takes part in the decision
+			switch t.Choice("c15.fragment", 4) {
+			case 1:
+				fq = frags[t.Choice("c15.frag", len(frags))] + fq
+			case 2:
+				fq = fq + frags[t.Choice("c15.frag", len(frags))]
 			}
 			req.Headers = append(req.Headers, [2]string{"X-Forwarded-Uri", fp + fq})
 			effPath = fp
